@@ -203,6 +203,25 @@ def run(ctx):
     ctx.log("%s: %d histories; %d (history, letter x timestamp class | join) edges between histories reached by single "
             "letters, %d covering paths; %d staging macros / (staged history, letter | join) edges, %d of them on %d paths" %
             (cfg, res["distinct"], g.nedges, nbase, gs.nedges, nstaged, len(spaths)))
+    # directed: a publisher whose 32-bit timestamps are about to wrap (it starts 448 ms before 2^32): +40 ms steps across
+    # the wrap, and a step to 2^32 - 1 from 88 ms below; video only (dummy audio is inserted in the second configuration)
+    # and video + audio
+    def letter(name):
+        for u in g.adj:
+            for (a, v) in g.adj[u]:
+                if a["name"] == "Pub" and a["m"]["name"] == name:
+                    return a["m"]
+        return None
+    for u0 in sorted(g.inits):
+        c0 = g.adj[u0][0][0]["cfg"] if g.adj[u0] else None
+        walk = [("avc_sh", "near"), ("avc_idr", "p40")] + [("avc_p", "p40")] * 13
+        jump = [("avc_sh", "near"), ("avc_idr", "p40")] + [("avc_p", "p40")] * 8 + [("avc_p", "max"), ("avc_p", "p40"), ("avc_idr", "p40")]
+        av = [("avc_sh", "near"), ("aac_sh", "p1"), ("avc_idr", "p40")] + [("avc_p", "p40"), ("aac_raw", "p1")] * 12
+        for shape in (walk, jump, av):
+            ms = [(letter(n), op) for (n, op) in shape]
+            if c0 is None or any(m is None for (m, _) in ms):
+                continue
+            paths.append([{"name": "Pub", "m": m, "ts": op, "cfg": c0} for (m, op) in ms])
     def cfg_of(path):
         c = path[0]["cfg"]          # every action carries the configuration of its history
         return (c["dummy"], c["predict"])
